@@ -3053,7 +3053,7 @@ func (vm *Thread) opNegateInt() {
 		result = operand.NegateVal()
 	} else {
 		operand := operand.AsReference().(*value.BigInt)
-		result = value.Ref(operand.Negate())
+		result = operand.Negate().Normalize()
 	}
 	vm.replace(result)
 }
@@ -3074,7 +3074,7 @@ func (vm *Thread) opIncrementInt() {
 		result = operand.Increment()
 	} else {
 		operand := operand.AsReference().(*value.BigInt)
-		result = value.Ref(operand.Increment())
+		result = operand.Increment().Normalize()
 	}
 	vm.replace(result)
 }
